@@ -149,3 +149,83 @@ func VerifH_C14_Stat() {
 	}
 	vrt.Reach("stat/ok")
 }
+
+// VerifH_C14_Mutations: RemoveAll, Copy, Move and Mkdir for every HTTP
+// status (any 64-bit value) and, for 207, a multi-status that decodes or not
+// and whose members report arbitrary statuses: no panic; error exactly when
+// the status is not 2xx, or it is 207 and the body cannot be read or a member
+// reports a non-success status (RFC 4918 9.6.1, 9.8.5, 9.9.4: 207 is how a
+// partial failure is reported); the error carries the failing status code.
+func VerifH_C14_Mutations() {
+	internal.VerifResetWire()
+	r := &internal.VerifResponder{Status: vrt.Int("status"), Header: http.Header{}}
+	r.Header.Set("Content-Type", "text/xml")
+	decodeFails := false
+	memberFailed := false
+	failCode := 0
+	if r.Status == 207 {
+		decodeFails = vrt.Choose("body-decodes", 2) == 0
+		var ms *internal.MultiStatus
+		if !decodeFails {
+			ms = &internal.MultiStatus{}
+			n := vrt.Choose("members", 3)
+			for i := 0; i < n; i++ {
+				code := vrt.Int("member-status")
+				ms.Responses = append(ms.Responses, internal.Response{Hrefs: []internal.Href{{Path: "/dav/d/" + string(rune('a'+i))}}, Status: &internal.Status{Code: code}})
+				if (code < 200 || code > 299) && !memberFailed {
+					memberFailed = true
+					failCode = code
+				}
+			}
+		}
+		internal.VerifPrepareBody(r, decodeFails, nil, ms)
+	} else {
+		internal.VerifPrepareBody(r, true, nil, nil)
+	}
+	var c *Client
+	if vrt.Symbolic() {
+		c = &Client{ic: internal.VerifNewClient(r, "/dav/")}
+	} else {
+		var cerr error
+		c, cerr = NewClient(r, "http://dav.example/dav/")
+		if cerr != nil {
+			panic(cerr)
+		}
+	}
+	ops := []string{"RemoveAll", "Copy", "Move", "Mkdir"}
+	op := ops[vrt.Choose("operation", len(ops))]
+	var err error
+	panicked := interface{}(nil)
+	func() {
+		defer func() { panicked = recover() }()
+		switch op {
+		case "RemoveAll":
+			err = c.RemoveAll(context.Background(), "/dav/d")
+		case "Copy":
+			err = c.Copy(context.Background(), "/dav/d", "/dav/e", nil)
+		case "Move":
+			err = c.Move(context.Background(), "/dav/d", "/dav/e", nil)
+		case "Mkdir":
+			err = c.Mkdir(context.Background(), "/dav/d")
+		}
+	}()
+	vrt.Assert(panicked == nil, op+" must not panic")
+	if panicked != nil {
+		return
+	}
+	is2xx := r.Status >= 200 && r.Status <= 299
+	wantErr := !is2xx
+	if r.Status == 207 && op != "Mkdir" && (decodeFails || memberFailed) {
+		wantErr = true
+	}
+	vrt.Assert((err != nil) == wantErr, op+" fails exactly when the status is not 2xx or a 207 reports a failed member")
+	if err != nil {
+		var he *internal.HTTPError
+		if !is2xx {
+			vrt.Assert(errors.As(err, &he) && he.Code == r.Status, "the error carries the HTTP status code")
+		} else if memberFailed && !decodeFails {
+			vrt.Assert(errors.As(err, &he) && he.Code == failCode, "the error carries the failed member's status code")
+		}
+	}
+	vrt.Reach("mutations/" + op)
+}
